@@ -11,11 +11,16 @@ PERIODS = [1, 2, 3]
 N_SCRIPTS = 4 ** 4  # all scripts of 4 calls over {improved?} x {stop?}
 N_EXH = N_SCRIPTS * len(PERIODS)
 N_EXH_QUICK = N_EXH  # the exhaustive part runs in both tiers
-TIERS = {"quick": N_EXH + 180, "thorough": N_EXH + 3000}
+# thorough tier only: every script of 5 outcomes (1024) x the same periods, run indices N_EXH .. N_EXH + N_EXH5 - 1;
+# the quick tier's run indices are unchanged by it
+N_SCRIPTS5 = 4 ** 5
+N_EXH5 = N_SCRIPTS5 * len(PERIODS)
+TIERS = {"quick": N_EXH + 180, "thorough": N_EXH + N_EXH5 + 3000}
 
 RULE = (
     "runs 0..%d enumerate exhaustively every script of 4 validation outcomes over {improved?} x {stop?} (256) for the periods "
-    "1, 2, 3 with a scripted validation module whose criterion fingerprints the parameters it was given; later runs alternate "
+    "1, 2, 3 with a scripted validation module whose criterion fingerprints the parameters it was given (thorough tier: a further "
+    "block enumerates every script of 5 outcomes, 1024 x 3 periods); later runs alternate "
     "between (a) longer random scripts (up to 12 calls, periods 1-7, including periods larger than the horizon) and (b) the "
     "built-in ValidationLoss with its own data / parameter / observation generators, patience 0-3, early stopping on/off, "
     "periods 1, 2, 5, learning rate 0 (exact ties) in some runs and a NaN row in the validation table in others. "
@@ -50,18 +55,24 @@ def _base_program(rng, r, tier, n_total):
 
 
 def generate(rng, tier, r):
-    if r < N_EXH:
-        period = PERIODS[r // N_SCRIPTS]
-        code = r % N_SCRIPTS
+    ncalls, nscripts = 4, N_SCRIPTS
+    if tier == "thorough" and r >= N_EXH:
+        if r < N_EXH + N_EXH5:
+            ncalls, nscripts, r = 5, N_SCRIPTS5, r - N_EXH
+        else:
+            r = r - N_EXH5  # sampled part: same index arithmetic as without the extra block
+    if ncalls == 5 or r < N_EXH:
+        period = PERIODS[r // nscripts]
+        code = r % nscripts
         script = []
-        for _ in range(4):
+        for _ in range(ncalls):
             code, d = divmod(code, 4)
             script.append({"improved": bool(d & 1), "stop": bool(d & 2)})
-        n = 3 * period + (1 if period == 1 else 2)
+        n = (ncalls - 1) * period + (1 if period == 1 else 2)
         # a pool of 4 base programs shared by all scripts (one compiled loop per (program, period))
         from sim import core
 
-        prng = core.run_rng(core.verif_seed(), ID, (r % N_SCRIPTS) % 4, stream="pool")
+        prng = core.run_rng(core.verif_seed(), ID, (r % nscripts) % 4, stream="pool")
         prog = _base_program(prng, r, tier, n)
         # cheap family for the exhaustive part
         prog["param_data"] = None
@@ -299,12 +310,14 @@ def shrink(program):
 
 
 def evidence_extra(ok, tier):
-    exh = [r for r in ok if r["r"] < N_EXH]
+    expected = N_EXH + (N_EXH5 if tier == "thorough" else 0)
+    exh = [r for r in ok if r["r"] < expected]
+    what = "4 validation outcomes over {improved?} x {stop?} (256)" + (" and of 5 outcomes (1024)" if tier == "thorough" else "")
     return {
         "exhaustive_subspace": {
-            "description": "every script of 4 validation outcomes over {improved?} x {stop?} (256) x periods 1, 2, 3, scripted module",
+            "description": "every script of %s x periods 1, 2, 3, scripted module" % what,
             "programs": len(exh),
-            "expected": N_EXH,
-            "exhaustive": len(exh) == N_EXH,
+            "expected": expected,
+            "exhaustive": len(exh) == expected,
         }
     }
